@@ -154,8 +154,9 @@ def gen_case(rng: random.Random, i: int) -> dict:
     with_stats = (i % 5 != 0)
     strategy = "pause" if kind in ("fault", "stop") or rng.random() < 0.5 else rng.choice(["log", "warn"])
     two = kind in ("othermodel", "multi") or rng.random() < 0.15
+    # (an initialize issued by a handler after its own stop() is thread overlap, C04's ground: never both in one model)
     models = [gen_model(rng, clock, stochastic=stochastic, with_stats=with_stats,
-                        fault=(kind == "fault"), stop=(kind == "stop"), init_cmd=(rng.random() < 0.06))]
+                        fault=(kind == "fault"), stop=(kind == "stop"), init_cmd=(kind != "stop" and rng.random() < 0.06))]
     if two:
         models.append(gen_model(rng, clock, stochastic=stochastic and rng.random() < 0.7,
                                 with_stats=with_stats and rng.random() < 0.8, fault=rng.random() < 0.2))
@@ -270,6 +271,11 @@ def oracle(case, obs):
         if ent[0] == "icmd" and ent[1][0] == "init" and ent[2] != "refused" and ent[3] in ("STARTING", "STARTED"):
             return ("initialize-while-running-accepted", f"initialize issued by a handler while the simulator was {ent[3]} "
                     f"answered {ent[2]}"), facts
+        if ent[0] == "icmd" and ent[1][0] == "init" and ent[3] == "STOPPING":
+            # initialize from a handler right after its own stop(): the run thread is still inside the loop but
+            # STOPPING counts as stopped - thread overlap, C04's known finding overlap:initialize-from-handler-after-stop
+            facts["kind"] = "overlap-c04"
+            return None, facts
     if sn[0] != "ok":
         if dup_keys or warm < start:
             facts["kind"] = "malformed"
@@ -802,6 +808,9 @@ def main(tier: str) -> int:
             small = shrink(cases[i], pred)
         o2 = run_impl([small], nproc=1)[0]
         b, _ = oracle(small, o2)
+        if not b or b[0] != sig:
+            small, b = cases[i], bad
+            o2 = run_impl([small], nproc=1)[0]
         keep = {k: o2.get(k) for k in ("snaps", "trace", "ntfs", "outs", "obs", "marks", "reported")}
         keep["twin"] = {k: (o2.get("twin") or {}).get(k) for k in ("snaps", "trace", "ntfs", "outs", "obs", "reported")}
         run.violation(sig, (b or bad)[1], {"case": small, "impl_observation": keep,
